@@ -6,7 +6,7 @@ both in lockstep; TraceWaiter = trace validation incl. linearizability of
 concurrent histories with callback events).
 Binding: E1 exhaustive TLC; E2 every transition of the TLC state graph replayed
 on a real waiter.Queue (P-level: callback counts, channel tokens, take results;
-I-level: next/prev pointers, Events(), IsEmpty()); E3/E4 sequential and
+I-level: next/prev pointers incl. stale ones, Events()); E3/E4 sequential and
 concurrent histories of the real Queue validated by TLC against the P-spec.
 """
 import copy
